@@ -6,6 +6,12 @@ names in a scratch PATH directory and lets the real `CNF.solve()` /
 `CNF.is_satisfiable()` talk to it.  The fake solver decides the formula by
 brute force, speaks the I/O convention of the name it was started under, bends
 its output into the requested *shape* and logs what it answered to a side file.
+(On PATH sits a four-line /bin/sh launcher per name: it answers cnfgen's
+`--help` installation probe itself and otherwise execs the byte-compiled fake
+solver, which keeps one bridge call at ~15 ms of child processes.)
+
+A violation is reported with a replay case of exactly that one call
+(`case_single`), not the batch it was met in.
 
 Oracles
   * the side log        -> "what the solver found" (answer, model printed, which
@@ -77,7 +83,7 @@ REQUIRED = ["conv_stdin_runs", "conv_filein_runs", "conv_fileout_runs"] + ["solv
     "formula_zero_variables", "formula_empty_clause", "formula_unused_variables", "formula_satisfiable",
     "formula_unsatisfiable",
     "cmd_plain", "cmd_flags", "cmd_sameas_other", "cmd_sameas_path", "cmd_sameas_cross", "flags_seen_by_solver",
-    "default_search_calls", "default_search_skipped_broken", "default_winner_first_in_table",
+    "default_search_calls", "default_search_runs", "default_search_skipped_broken", "default_winner_first_in_table",
     "refusal_unknown_sameas_ok", "refusal_unsupported_ok", "refusal_absent_ok", "refusal_nothing_installed_ok",
     "refusal_not_executable_ok",
     "temp_files_created", "temp_files_removed", "ledger_checks", "ledger_checks_after_failure",
